@@ -85,7 +85,7 @@ func (lt *LockTable) lockPath(v ssa.Value) string {
 		v = resolveCell(v)
 		switch x := v.(type) {
 		case *ssa.Parameter:
-			return "p:" + x.Name()
+			return paramName(x)
 		case *ssa.FreeVar:
 			return "fv:" + x.Name()
 		case *ssa.Global:
@@ -96,7 +96,7 @@ func (lt *LockTable) lockPath(v ssa.Value) string {
 				v = x.X
 				continue
 			}
-			return "v:" + x.Name()
+			return valName("v:", x)
 		case *ssa.FieldAddr:
 			st, _ := derefStruct(x.X.Type())
 			f := st.Field(x.Field)
@@ -128,16 +128,16 @@ func (lt *LockTable) lockPath(v ssa.Value) string {
 				v = x.Call.Args[0]
 				continue
 			}
-			return "v:" + x.Name()
+			return valName("v:", x)
 		case *ssa.Phi:
-			return "v:" + x.Name()
+			return valName("v:", x)
 		case *ssa.Alloc:
-			return "c:" + x.Name()
+			return valName("c:", x)
 		default:
 			if v == nil {
 				return "?"
 			}
-			return "v:" + v.Name()
+			return valName("v:", v)
 		}
 	}
 	return "?"
@@ -322,6 +322,10 @@ type LockWalk struct {
 	// OnEdge may refine the state carried along the edge b -> b.Succs[succ] (e.g. drop a resource on the
 	// edge on which its pointer is nil); returning false prunes the edge.
 	OnEdge    func(b *ssa.BasicBlock, succ int, st *LState) bool
+	// InlineHelpers: calls of private helpers of the same package (void / scalar results) are walked in place
+	InlineHelpers bool
+	// NoInline names helpers the rule models itself (declared transfers, acquire wrappers)
+	NoInline  func(f *ssa.Function) bool
 	MaxStates int
 	States     int
 	Truncated  bool
@@ -339,13 +343,48 @@ func (lw *LockWalk) Run() {
 	for k, v := range lw.Init {
 		init.held[k] = v
 	}
-	type item struct {
-		b    *ssa.BasicBlock
-		from *ssa.BasicBlock
-		st   *LState
+	prevTop, prevSubst := inlTopFn, inlSubst
+	inlTopFn, inlSubst = lw.Fn, map[*ssa.Parameter]string{}
+	defer func() { inlTopFn, inlSubst = prevTop, prevSubst }()
+	lw.walk(lw.Fn, init, 0)
+}
+
+// inlinable: a private helper of the walked function's package whose body is walked in place of the call
+// (void or scalar results only: helpers that hand out objects are summarised by the rules themselves).
+func (lw *LockWalk) inlinable(f *ssa.Function) bool {
+	if f == nil || len(f.Blocks) == 0 || f.Pkg == nil || lw.Fn.Pkg == nil || f.Pkg != lw.Fn.Pkg || f.Parent() != nil || f.Synthetic != "" {
+		return false
 	}
+	if token.IsExported(f.Name()) || f == lw.Fn || (lw.NoInline != nil && lw.NoInline(f)) {
+		return false
+	}
+	res := f.Signature.Results()
+	for i := 0; i < res.Len(); i++ {
+		switch res.At(i).Type().Underlying().(type) {
+		case *types.Basic:
+		default:
+			return false
+		}
+	}
+	n := 0
+	for _, b := range f.Blocks {
+		n += len(b.Instrs)
+	}
+	return n <= 400
+}
+
+// walk explores fn from its entry with the given state. depth 0 is the function the rule asked for; deeper
+// frames are inlined helpers, whose exit states are returned to the caller frame.
+func (lw *LockWalk) walk(fn *ssa.Function, init *LState, depth int) (exits []*LState) {
+	type item struct {
+		b     *ssa.BasicBlock
+		from  *ssa.BasicBlock
+		st    *LState
+		start int
+	}
+	exitSeen := map[string]bool{}
 	seen := map[string]bool{}
-	work := []item{{lw.Fn.Blocks[0], nil, init}}
+	work := []item{{fn.Blocks[0], nil, init, 0}}
 	issue := func(kind string, in ssa.Instruction, name string, st *LState) {
 		if lw.OnIssue != nil {
 			lw.OnIssue(kind, in, name, st)
@@ -390,7 +429,7 @@ func (lw *LockWalk) Run() {
 				} else {
 					src = st.root(lw.pathOf(phi.Edges[pi]))
 				}
-				newAlias["v:"+phi.Name()] = src
+				newAlias[valName("v:", phi)] = src
 			}
 			for k, v := range newAlias {
 				if k != v {
@@ -417,7 +456,7 @@ func (lw *LockWalk) Run() {
 				}
 			}
 		}
-		key := itoa(it.b.Index) + "#" + st.key()
+		key := itoa(it.b.Index) + "@" + itoa(it.start) + "#" + st.key()
 		if seen[key] {
 			continue
 		}
@@ -428,13 +467,16 @@ func (lw *LockWalk) Run() {
 			return
 		}
 		dead := false
-		for _, in := range it.b.Instrs {
+		for idx, in := range it.b.Instrs {
+			if idx < it.start {
+				continue
+			}
 			// executing the defining instruction of an SSA register kills that name: a lock still held
 			// under it belongs to the value of an earlier loop iteration and lives on under a fresh name
 			// (reachable through the phi / cell aliases only)
 			if v, ok := in.(ssa.Value); ok {
 				if _, isPhi := in.(*ssa.Phi); !isPhi {
-					st.killName("v:" + v.Name())
+					st.killName(valName("v:", v))
 				}
 			}
 			if st.overflow != "" {
@@ -445,7 +487,7 @@ func (lw *LockWalk) Run() {
 			if lw.TrackFields {
 				// a pointer loaded from a re-bindable field denotes the object the field held at load time
 				if u, ok := in.(*ssa.UnOp); ok && trackedFieldLoad(u) {
-					st.alias["v:"+u.Name()] = st.root(lw.pathOf(u.X))
+					st.alias[valName("v:", u)] = st.root(lw.pathOf(u.X))
 				}
 			}
 			if lw.OnInstr != nil {
@@ -471,7 +513,7 @@ func (lw *LockWalk) Run() {
 			case *ssa.Store:
 				// a local cell (closure-captured variable) is re-bound: loads of the cell now denote the stored value
 				if al, ok := x.Addr.(*ssa.Alloc); ok {
-					k := "c:" + al.Name()
+					k := valName("c:", al)
 					delete(st.alias, k)
 					src := st.root(lw.pathOf(x.Val))
 					if _, isConst := x.Val.(*ssa.Const); isConst {
@@ -515,6 +557,42 @@ func (lw *LockWalk) Run() {
 				default:
 					var acq map[string]string
 					var rel []string
+					if lw.InlineHelpers && depth < 2 && lw.inlinable(x.Call.StaticCallee()) {
+						f := x.Call.StaticCallee()
+						saved := map[*ssa.Parameter]string{}
+						for i, p := range f.Params {
+							if old, ok := inlSubst[p]; ok {
+								saved[p] = old
+							}
+							if i < len(x.Call.Args) {
+								if c, isConst := x.Call.Args[i].(*ssa.Const); isConst {
+									inlSubst[p] = "const:" + c.String()
+								} else {
+									inlSubst[p] = st.root(lw.pathOf(x.Call.Args[i]))
+								}
+							}
+						}
+						sub := st.clone()
+						callerDeferred := sub.deferred
+						sub.deferred = nil
+						exs := lw.walk(f, sub, depth+1)
+						for _, p := range f.Params {
+							if old, ok := saved[p]; ok {
+								inlSubst[p] = old
+							} else {
+								delete(inlSubst, p)
+							}
+						}
+						if lw.Truncated {
+							return
+						}
+						for _, ex := range exs {
+							ex.deferred = append([]string(nil), callerDeferred...)
+							work = append(work, item{it.b, nil, ex, idx + 1})
+						}
+						dead = true
+						break
+					}
 					if lw.CallEffect != nil {
 						acq, rel = lw.CallEffect(x, st)
 					}
@@ -533,7 +611,14 @@ func (lw *LockWalk) Run() {
 					}
 				}
 			case *ssa.Return:
-				if lw.OnReturn != nil {
+				if depth > 0 {
+					ex := st.clone()
+					if k := ex.key(); !exitSeen[k] {
+						exitSeen[k] = true
+						exits = append(exits, ex)
+					}
+					dead = true
+				} else if lw.OnReturn != nil {
 					lw.OnReturn(x, st)
 				}
 			case *ssa.Panic:
@@ -563,9 +648,35 @@ func (lw *LockWalk) Run() {
 					continue
 				}
 			}
-			work = append(work, item{succ, it.b, nst})
+			work = append(work, item{succ, it.b, nst, 0})
 		}
 	}
+	return exits
+}
+
+// naming of SSA values across inlined frames: values of an inlined helper carry the helper's name, its
+// parameters are named by the caller's argument paths
+var inlTopFn *ssa.Function
+var inlSubst map[*ssa.Parameter]string
+
+func valName(prefix string, v ssa.Value) string {
+	n := prefix + v.Name()
+	if inlTopFn != nil {
+		if in, ok := v.(ssa.Instruction); ok && in.Parent() != nil && in.Parent() != inlTopFn && in.Parent().Parent() == nil {
+			n += "@" + in.Parent().Name()
+		}
+	}
+	return n
+}
+
+func paramName(p *ssa.Parameter) string {
+	if s, ok := inlSubst[p]; ok {
+		return s
+	}
+	if inlTopFn != nil && p.Parent() != nil && p.Parent() != inlTopFn && p.Parent().Parent() == nil {
+		return "p:" + p.Name() + "@" + p.Parent().Name()
+	}
+	return "p:" + p.Name()
 }
 
 func (lw *LockWalk) pathOf(v ssa.Value) string {
